@@ -929,5 +929,12 @@ theorem leaky_backprop (bm : BMode) (m : ℝ) (H : Heap ℝ) (x : Nat) (hR : Rea
   intro a _
   simp
 
+/-- the hypotheses of the end-to-end theorems are satisfiable: a heap with one tracked leaf -/
+example : ∃ (H : Heap ℝ) (x : Nat), Reach BMode.mean H ∧ (H.val x).WF ∧ Live H x := by
+  refine ⟨#[⟨⟨[2], [1, 2]⟩, freshCtx true⟩], 0, Reach.leaf (v := ⟨[2], [1, 2]⟩) (b := true) (r := 0) Reach.empty rfl, ?_, ?_⟩
+  · refine ⟨by simp [Heap.val, prod], ?_⟩
+    intro d hd; simp [Heap.val] at hd; omega
+  · exact ⟨by simp, by simp [Heap.tracked, Heap.ctx, freshCtx], by simp [Heap.dirty, Heap.ctx, freshCtx]⟩
+
 end C15z
 end Qeep
